@@ -4,7 +4,7 @@ CFG = dict(
     theorems=["readObj_ranges_sum", "readObj_faces_content", "readObj_noMatlessAfterMat", "obj_reload_strict", "obj_resave_faces", "obj_resave_positions", "obj_resave_corners", "obj_resave_corners_uniform", "readObj_corners", "readObj_normals_complete", "obj_roundtrip_struct",
               "obj_roundtrip_carry", "obj_roundtrip", "readObj_transport", "obj_roundtrip_text", "obj_reload", "obj_shared_offset_breaks",
               "obj_matless_after_mat_witness", "obj_empty_mesh_not_last_witness",
-              "obj_resave_literal", "parseInt_showInt", "showInt_clean", "parseInt_range", "parseCorner_showCorner", "showCorner_no_blank"],
+              "obj_resave_literal", "parseInt_showInt", "showInt_clean", "parseInt_range", "parseCorner_showCorner", "showCorner_no_blank", "obj_roundtrip_text_ints"],
     helper_theorems=["readObj_resolves_at_face"],
     modules=["PolyVerif.Props.C05", "PolyVerif.Props.C05Resave", "PolyVerif.Props.C05Text"],
     streams=[dict(name="c05", n=dict(quick=300, thorough=10000))],
